@@ -20,7 +20,12 @@ def items(tier):
             for k, m in ks:
                 out.append({"kind": "cm", "sc": sc, "ec": ec, "P": P, "N": N, "k": k, "m": m})
         for metric in METRICS:
-            for P, N in (szs[:2] if tier == "quick" else szs[:4]):
+            cls = METRICS[metric][0]
+            # the relevant class needs >= 2 scored samples, otherwise "inside the scored range" pins the threshold to the single score
+            tsz = {"pos": [(2, 1), (3, 1)], "neg": [(1, 2), (1, 3)], "all": [(1, 1), (2, 1), (1, 2)]}[cls]
+            if tier == "thorough":
+                tsz = {"pos": [(2, 1), (3, 2), (4, 1)], "neg": [(1, 2), (2, 3), (1, 4)], "all": [(1, 1), (2, 1), (1, 2), (2, 2)]}[cls]
+            for P, N in tsz:
                 for k, m in (ks[2:4] if tier == "quick" else ks[2:6]):
                     out.append({"kind": "thr", "sc": sc, "ec": ec, "metric": metric, "P": P, "N": N, "k": k, "m": m})
     return out
